@@ -34,7 +34,7 @@ DATE_FMT = {"us": "%m/%d/%Y", "ie": "%Y/%m/%d"}
 WINDOWS: List[Tuple[Optional[date], Optional[date]]] = [(None, None), (date(2021, 1, 1), None), (None, date(2020, 12, 31)), (date(2020, 9, 1), date(2020, 9, 1))]
 
 
-def asset_specs(asset: str, kinds: Sequence[str], shift: int, zones: bool = False) -> List[Dict[str, Any]]:
+def asset_specs(asset: str, kinds: Sequence[str], shift: int, zones: bool = False, utc_twin: bool = False) -> List[Dict[str, Any]]:
     """Two covering lots (one more than a year old at the first event, one younger), then one event per kind: the first on
     2020-09-01, later ones 6 months apart (so that a window bound separates them). Disposals span both lots."""
     from rp2verif.history import dec
@@ -74,21 +74,29 @@ def asset_specs(asset: str, kinds: Sequence[str], shift: int, zones: bool = Fals
         else:
             add({"table": "intra", "timestamp": ts, "from_exchange": "X1", "from_holder": "H1", "to_exchange": "X2", "to_holder": "H1", "spot_price": "400", "crypto_sent": "2",
                  "crypto_received": "0.5"})
+    if utc_twin:
+        # the very same instants written in UTC: equal as instants to the other asset's timestamps, on another calendar day as written
+        from datetime import datetime, timezone
+
+        for r in rows:
+            r["timestamp"] = datetime.fromisoformat(r["timestamp"]).astimezone(timezone.utc).isoformat(sep=" ")
     return rows
 
 
 def build_case(k1: Sequence[str], k2: Optional[Sequence[str]], window: Tuple[Optional[date], Optional[date]], country: str, zones: bool = False,
-               method: str = "fifo") -> Dict[str, Any]:
+               method: str = "fifo", utc_twin: bool = False) -> Dict[str, Any]:
     from rp2verif import frdriver as D
 
     assets = {"B1": asset_specs("B1", k1, 0, zones)}
     if k2 is not None:
-        assets["B2"] = asset_specs("B2", k2, 3, zones)
+        # utc_twin: asset B2's transactions happen at the SAME instants as B1's, but are written in UTC (another calendar day as written)
+        assets["B2"] = asset_specs("B2", k2, 0 if utc_twin else 3, zones, utc_twin)
     sheets = {}
     for a in list(assets):
         sheets[a], assets[a] = D.to_sheet(assets[a], a)
-    return {"label": f"rp2_{country} B1={'+'.join(k1)}" + (f" B2={'+'.join(k2)}" if k2 is not None else "") + f" -f {window[0]} -t {window[1]}" + (" [offsets]" if zones else "") + (f" [{method}]" if method != "fifo" else ""),
-            "zones": zones, "method": method, "k1": list(k1), "k2": list(k2) if k2 is not None else None, "assets": assets, "sheets": sheets, "schedule": [(1970, method)], "from": window[0], "to": window[1],
+    return {"label": f"rp2_{country} B1={'+'.join(k1)}" + (f" B2={'+'.join(k2)}" if k2 is not None else "") + f" -f {window[0]} -t {window[1]}" + (" [offsets]" if zones else "") + (" [B2 = the same instants written in UTC]" if utc_twin else "")
+            + (f" [{method}]" if method != "fifo" else ""),
+            "zones": zones, "method": method, "utc_twin": utc_twin, "k1": list(k1), "k2": list(k2) if k2 is not None else None, "assets": assets, "sheets": sheets, "schedule": [(1970, method)], "from": window[0], "to": window[1],
             "country": country, "lang": "en" if country == "us" else "en_IE", "reports": [f"tax_report_{country}"], "allow_negative": True}
 
 
@@ -197,7 +205,7 @@ def judge(st: Stats, case: Dict[str, Any]) -> None:
     st.inc("evaluations")
     res = G.run(case)
     payload = {"full_case": True, "case": D_jsonable(case)} if case.get("bundled") else {"case": {"k1": case["k1"], "k2": case["k2"], "from": str(case["from"]) if case["from"] else None, "to": str(case["to"]) if case["to"] else None,
-                        "country": case["country"], "zones": case.get("zones", False), "method": case.get("method", "fifo")}}
+                        "country": case["country"], "zones": case.get("zones", False), "method": case.get("method", "fifo"), "utc_twin": case.get("utc_twin", False)}}
     tag = case["label"]
     if res["error"]:
         st.violation(dict(payload, signature=f"C14 no report: {res['stage']} / {res['error'].split(':')[0]}", what=f"{tag} :: {res['stage']}: {res['error'][:200]}"))
@@ -224,6 +232,8 @@ def cases(tier: str) -> List[Dict[str, Any]]:
             out.append(build_case(list(KINDS), None, w, country))
             out.append(build_case(list(KINDS), list(reversed(KINDS)), w, country))
             out.append(build_case(list(KINDS), list(reversed(KINDS)), w, country, zones=True))
+            out.append(build_case(list(KINDS), list(KINDS), w, country, zones=True, utc_twin=True))
+            out.append(build_case(list(KINDS[:5]), list(KINDS[:5]), w, country, zones=True, utc_twin=True))
             for k in KINDS:
                 out.append(build_case([k], [KINDS[(KINDS.index(k) + 5) % len(KINDS)]], w, country, zones=True))
             # the other methods pair every disposal with the lots in another order (the two covering lots differ in age and price)
@@ -316,7 +326,7 @@ def replay(path: str) -> int:
         case = D.from_json(c)
     else:
         case = build_case(c["k1"], c["k2"], (date.fromisoformat(c["from"]) if c["from"] else None, date.fromisoformat(c["to"]) if c["to"] else None), c["country"], c.get("zones", False),
-                          c.get("method", "fifo"))
+                          c.get("method", "fifo"), c.get("utc_twin", False))
     ctx = mp.get_context("fork")
     with ctx.Pool(1, initializer=init) as pool:
         st = pool.apply(worker, ([case],))
